@@ -611,6 +611,10 @@ class Messenger(Connection):
         ''' Handle an idle timer timeout. '''
         self._idle_stop()
         self._logger.debug('Idle time reached')
+        if self._in_term:
+            # already terminating and the peer stayed silent
+            self.close()
+            return False
         self.send_sess_term(messages.SessionTerm.Reason.IDLE_TIMEOUT, False)
         return False
 
